@@ -656,7 +656,59 @@ class EffectsAnalysis:
             v = const_value(aug.value)
             if isinstance(v, (int, float)):
                 return False
+        if not subscripted and self._branched_on(name, ctx, aug):
+            return False
         return True
+
+    _ORDER_OPS = (ast.Lt, ast.LtE, ast.Gt, ast.GtE)
+
+    def _branched_on(self, name, ctx, aug=None):
+        """Scalar evidence for a bare name: `name` is a direct operand of an
+        ordering comparison (< <= > >=) whose result is used as a truth
+        value (test of if / while / assert / conditional expression /
+        comprehension filter, possibly under and/or/not).  The truth value of
+        an elementwise comparison of an ndarray with more than one element
+        raises ValueError, and the name is never subscripted and has no
+        method called on it, so it holds a Python / numpy scalar, which
+        `name op= v` rebinds.  Lists order lexicographically into a plain
+        bool and implement `+=` / `*=` in place, so for those two operators
+        the comparison must be against a numeric literal; equality tests are
+        no evidence at all (`lst == []`).  (A one-element array would pass
+        the test; the analysis may miss in that corner, like every entry of
+        the transfer tables.)"""
+        from .core import const_value
+        listy = aug is None or isinstance(aug.op, (ast.Add, ast.Mult))
+        fn = ctx['fn']
+        parent = ctx['mod'].parent
+        for n in walk_local(fn):
+            if isinstance(n, ast.Attribute) and isinstance(n.value, ast.Name) \
+                    and n.value.id == name and isinstance(
+                        parent.get(n), ast.Call) and parent.get(n).func is n:
+                return False
+        for c in walk_local(fn):
+            if not isinstance(c, ast.Compare):
+                continue
+            if not all(isinstance(o, self._ORDER_OPS) for o in c.ops):
+                continue
+            operands = [c.left] + list(c.comparators)
+            if not any(isinstance(o, ast.Name) and o.id == name
+                       for o in operands):
+                continue
+            if listy and not any(isinstance(const_value(o), (int, float))
+                                 and not isinstance(const_value(o), bool)
+                                 for o in operands):
+                continue
+            cur = c
+            par = parent.get(cur)
+            while isinstance(par, ast.BoolOp) or (
+                    isinstance(par, ast.UnaryOp) and isinstance(par.op, ast.Not)):
+                cur, par = par, parent.get(par)
+            if isinstance(par, (ast.If, ast.While, ast.Assert, ast.IfExp)) \
+                    and par.test is cur:
+                return True
+            if isinstance(par, ast.comprehension) and cur in par.ifs:
+                return True
+        return False
 
     def _solve(self):
         for _ in range(12):
